@@ -351,6 +351,7 @@ fn write_evidence(
             "other_rule_hits_not_owned_by_this_property": st.other_rule_hits,
             "known_finding_hits": st.known_hits.iter().map(|(k, v)| (k.clone(), v.0)).collect::<BTreeMap<_, _>>(),
             "determinism_rechecked_runs": st.determinism_checked,
+            "batch_digest": format!("{:016x}", st.digest),
             "side_checks": side,
             "components": components(),
             "violation_details": viol,
@@ -509,49 +510,73 @@ fn cmd_show(id: &str, tier: Tier, job: u64) -> i32 {
 
 fn cmd_selftest(n: u64) -> i32 {
     // print one line per (check, job): trace hashes; the wrapper script diffs the outputs of
-    // separate processes and worker counts
+    // separate processes. One thread per check; output is assembled in check order.
     let known = Known::load();
     let seed = seed_from_env();
-    for check in all_checks() {
-        let idhash = rng::fnv(check.id().as_bytes());
-        for job in 0..n {
-            let mut r = rng::Rng::new(rng::mix(&[seed, idhash, 1, job]));
-            struct Rec<'a> {
-                inner: &'a dyn Check,
-            }
-            let _ = Rec { inner: check.as_ref() }.inner;
-            let mut ctx = JobCtx {
-                check: check.as_ref(),
-                known: &known,
-                stats: Stats::default(),
-                job,
-                sub: 0,
-                want_sample: false,
-                det_check: true,
-                stop_on_fail: false,
-                planlog: None,
-                hb: None,
-            };
-            check.run_job(&mut r, Tier::Quick, job, &mut ctx);
-            let mut shapes: Vec<u64> = ctx.stats.trace_shapes.iter().cloned().collect();
-            shapes.sort_unstable();
-            say!(
-                "{} job={} evals={} ops={} cbytes={} sbytes={} shapes={:x} mismatch={}",
-                check.id(),
-                job,
-                ctx.stats.evaluations,
-                ctx.stats.ops,
-                ctx.stats.client_bytes,
-                ctx.stats.server_bytes,
-                rng::mix(&shapes),
-                ctx.stats.determinism_mismatch.len()
-            );
-            if !ctx.stats.determinism_mismatch.is_empty() {
-                return 2;
-            }
+    let checks = all_checks();
+    let mut results: Vec<(Vec<String>, bool)> = Vec::new();
+    std::thread::scope(|s| {
+        let hs: Vec<_> = checks
+            .iter()
+            .map(|check| {
+                let known = &known;
+                s.spawn(move || {
+                    let mut lines = Vec::new();
+                    let mut bad = false;
+                    let idhash = rng::fnv(check.id().as_bytes());
+                    // the two checks whose jobs are huge (16 MiB messages, complete fault enumeration)
+                    let n = if matches!(check.id(), "C04" | "C19") { n.min(10) } else { n };
+                    for job in 0..n {
+                        let mut r = rng::Rng::new(rng::mix(&[seed, idhash, 1, job]));
+                        let mut ctx = JobCtx {
+                            check: check.as_ref(),
+                            known,
+                            stats: Stats::default(),
+                            job,
+                            sub: 0,
+                            want_sample: false,
+                            det_check: true,
+                            stop_on_fail: false,
+                            planlog: None,
+                            hb: None,
+                        };
+                        check.run_job(&mut r, Tier::Quick, job, &mut ctx);
+                        let mut shapes: Vec<u64> = ctx.stats.trace_shapes.iter().cloned().collect();
+                        shapes.sort_unstable();
+                        lines.push(format!(
+                            "{} job={} evals={} ops={} cbytes={} sbytes={} shapes={:x} digest={:x} mismatch={}",
+                            check.id(),
+                            job,
+                            ctx.stats.evaluations,
+                            ctx.stats.ops,
+                            ctx.stats.client_bytes,
+                            ctx.stats.server_bytes,
+                            rng::mix(&shapes),
+                            ctx.stats.digest,
+                            ctx.stats.determinism_mismatch.len()
+                        ));
+                        if !ctx.stats.determinism_mismatch.is_empty() {
+                            bad = true;
+                        }
+                    }
+                    (lines, bad)
+                })
+            })
+            .collect();
+        for h in hs {
+            results.push(h.join().unwrap_or_else(|_| (vec!["harness: selftest thread panicked".into()], true)));
+        }
+    });
+    let mut rc = 0;
+    for (lines, bad) in results {
+        for l in lines {
+            say!("{}", l);
+        }
+        if bad {
+            rc = 2;
         }
     }
-    0
+    rc
 }
 
 fn main() {
